@@ -1,0 +1,7 @@
+//go:build !verif
+
+package resolve
+
+func verifYield(point string, a, b int64) {}
+
+func verifEvent(name string, a, b int64) {}
